@@ -36,10 +36,12 @@ CHECKS = {
     'C06': dict(
         category='model_checking', design='DESIGN.md section 4 C06',
         technique='TLA+ spec (IdLayout) of both bit layouts; TLC enumerates per-field sweeps/boundaries/rejections; '
-                  'every TLC state replayed into the real functions; recorded random calls judged by Trace_IdLayout in TLC',
+                  'every TLC state replayed into the real functions; recorded random calls judged by Trace_IdLayout in TLC; '
+                  'the layout laws for ALL in-range field tuples discharged symbolically by Apalache (apalache/IdLayoutArith.tla)',
         text='Bounded-exhaustive: every value of every field (others at both extremes), all boundary/one-hot patterns, all '
              'just-out-of-range values, all vN_M_P strings, in scalar/array/length-1/string conventions, compared bit for bit '
-             'with the TLA+ Pack/Unpack; plus seeded random tuples judged by the spec. Joint variation of all fields is sampled, not exhaustive.',
+             'with the TLA+ Pack/Unpack; plus seeded random tuples judged by the spec. Joint variation of all fields is sampled in the binding to the code; '
+             'at the specification level it is exhaustive (Apalache, unbounded integers: fits in 64 bits, round trip, injectivity for every tuple).',
         note='Trusted: TLC, the 20-line bit-set abstraction (int <-> set of bit positions). Values >= 2^31 are not representable in TLC and are not exercised.'),
     'C07': dict(
         category='model_checking', design='DESIGN.md section 4 C07',
